@@ -183,6 +183,12 @@ def unpack(chk):
             v_ = _loop_local_value(lp, s_, s_.test.id, src.tree(P9))
             if v_ is not None:
                 s_.test = v_
+    # `if <first byte> != 0xFF: <particle> else: <header>` is the same two-way choice with the arms exchanged
+    for s_ in ifs:
+        if isinstance(s_.test, ast.Compare) and len(s_.test.ops) == 1 and isinstance(s_.test.ops[0], ast.NotEq) and s_.orelse \
+                and ('255' in unparse(s_.test) or '0XFF' in unparse(s_.test).upper()):
+            s_.test.ops = [ast.Eq()]
+            s_.body, s_.orelse = s_.orelse, s_.body
     hdr = [s for s in ifs if '255' in unparse(s.test) or '0xFF' in unparse(s.test).upper() or '0xff' in unparse(s.test)]
     if len(hdr) != 1:
         # the record loop has a two-way header / particle choice whose test is not "first byte == 0xFF"
